@@ -45,15 +45,24 @@ func (d *DirEntry) Info() (fs.FileInfo, error) { return nil, nil }
 
 // FileInfo is what the (*os.File).Stat stub returns.
 type FileInfo struct {
-	N   string
-	Sz  int64
-	Dir bool
+	N    string
+	Sz   int64
+	Dir  bool
+	Link bool
 }
 
-func (f *FileInfo) Size() int64        { return f.Sz }
-func (f *FileInfo) Name() string       { return f.N }
-func (f *FileInfo) IsDir() bool        { return f.Dir }
-func (f *FileInfo) Mode() fs.FileMode  { return 0o644 }
+func (f *FileInfo) Size() int64  { return f.Sz }
+func (f *FileInfo) Name() string { return f.N }
+func (f *FileInfo) IsDir() bool  { return f.Dir }
+func (f *FileInfo) Mode() fs.FileMode {
+	switch {
+	case f.Link:
+		return fs.ModeSymlink | 0o777
+	case f.Dir:
+		return fs.ModeDir | 0o755
+	}
+	return 0o644
+}
 func (f *FileInfo) ModTime() time.Time { return time.Time{} }
 func (f *FileInfo) Sys() any           { return nil }
 
